@@ -72,14 +72,27 @@ fn gen_small_header(g: &mut Gen) -> Header {
     if g.bool() {
         h.key_id = g.nonempty_bytes();
     }
-    if g.ratio(1, 3) {
-        h.iv = g.nonempty_bytes();
+    match g.below(5) {
+        0 | 1 => h.iv = g.nonempty_bytes(),
+        2 => h.partial_iv = g.nonempty_bytes(),
+        _ => {}
     }
     if g.ratio(1, 3) {
         h.content_type = Some(ContentType::Text("a/b".into()));
     }
-    if g.ratio(1, 3) {
-        h.rest.push((Label::Int(100 + g.range_i64(0, 50)), Value::from(g.range_i64(-5, 5))));
+    // extras: small integers mostly; sometimes values whose decoded form differs from what was built
+    // (a NaN never compares equal to itself; a small bignum tag comes back as a plain integer; floats
+    // come back in their shortest width) — none of which changes what the bytes on the wire are
+    let n = g.weighted(&[6, 3, 1, 1]);
+    for i in 0..n {
+        let v = match g.weighted(&[6, 1, 1, 1, 1]) {
+            0 => Value::from(g.range_i64(-5, 5)),
+            1 => Value::Float(*g.pick(&[f64::NAN, -0.0, 0.5, 1.0e300, f64::INFINITY])),
+            2 => Value::Tag(if g.bool() { 2 } else { 3 }, Box::new(Value::Bytes(g.nonempty_bytes().into_iter().take(8).collect()))),
+            3 => Value::Array(vec![Value::Float(f64::NAN), Value::Tag(2, Box::new(Value::Bytes(vec![1])))]),
+            _ => Value::Map(vec![(Value::from(2), Value::Null), (Value::from(1), Value::Float(f64::NAN))]),
+        };
+        h.rest.push((Label::Int(100 + 60 * i as i64 + g.range_i64(0, 50)), v));
     }
     h
 }
